@@ -594,37 +594,77 @@ static std::string g17(double d) {
     return buf;
 }
 
+// Floating-point error bound that is checked (the "up to floating-point rounding" clause), with
+// n = count, S = sum of squared deviations (exact), Q = sum of squares (exact), u = 2^-53:
+//   |nvar_ - S|     <= C n u sqrt(S Q) + C n u^2 Q        ( = C n u kappa S with kappa = sqrt(Q/S), the
+//                                                           condition number of the variance: the bound of
+//                                                           Welford's update and of Chan's pairwise combination;
+//                                                           a sum-of-squares formula only achieves n u kappa^2 S = n u Q )
+//   |mean_ - mean|  <= C n u sqrt(Q / n)
+//   |variance(d) - S/(n-d)| <= tol_nvar/(n-d) + 4 u S/(n-d)
+// C = 8.  count, min, max are exact.  The exact S, Q, mean come from 128-bit integer arithmetic on
+// the values scaled by 1024 (all generated values are multiples of 1/1024 below 2^52).
+struct AggRef { size_t n; long double mean, S, Q, mn, mx, tol_nvar, tol_mean; };
+static AggRef agg_exact(const std::vector<long double>& v) {
+    AggRef r{};
+    r.n = v.size();
+    if (!r.n) return r;
+    i128 sx = 0, sxx = 0;
+    r.mn = r.mx = v[0];
+    for (long double x : v) {
+        i128 X = static_cast<i128>(llroundl(x * 1024.0L));
+        sx += X; sxx += X * X;
+        r.mn = std::min(r.mn, x); r.mx = std::max(r.mx, x);
+    }
+    const long double sc = 1024.0L;
+    i128 num = static_cast<i128>(r.n) * sxx - sx * sx;          // n^2 * 1024^2 * variance(0), exact
+    r.S = static_cast<long double>(num) / (static_cast<long double>(r.n) * sc * sc);
+    r.Q = static_cast<long double>(sxx) / (sc * sc);
+    r.mean = static_cast<long double>(sx) / (static_cast<long double>(r.n) * sc);
+    const long double u = 1.1102230246251565e-16L, C = 8, n = static_cast<long double>(r.n);
+    r.tol_nvar = C * n * u * sqrtl(r.S * r.Q) + C * n * u * u * r.Q;
+    r.tol_mean = C * n * u * sqrtl(r.Q / n);
+    return r;
+}
+
 template <typename T>
-static void agg_report(Bank<T>& B, int r, const std::string& line) {
+static void agg_report(Bank<T>& B, int r, const std::string& line, bool combined) {
     const tlx::Aggregate<T>& g = B.agg[r];
     const std::vector<long double>& v = B.ref[r];
-    long double sum = 0, sq = 0;
-    for (long double x : v) { sum += x; sq += x * x; }
     std::ostringstream os;
     os << "count=" << g.count() << " mean=" << g17(g.mean()) << " nvar=" << g17(g.nvar_)
        << " min=" << g17(static_cast<double>(g.min())) << " max=" << g17(static_cast<double>(g.max()))
-       << " var0=" << g17(g.variance(0)) << " var1=" << g17(g.variance(1)) << " span=" << (g.count() ? g17(static_cast<double>(g.span())) : std::string("-"))
-       << " scale=" << g17(static_cast<double>(sq));
+       << " var0=" << g17(g.variance(0)) << " var1=" << g17(g.variance(1)) << " span=" << (g.count() ? g17(static_cast<double>(g.span())) : std::string("-"));
     vh::answer(os.str());
-    // direct oracle: one Aggregate fed with all values == definition over the multiset
+    // direct oracle: the definition over the multiset of all values
     size_t n = v.size();
     if (g.count() != n) { vh::viol("aggregate count " + std::to_string(g.count()) + " but " + std::to_string(n) + " values were fed, after " + line); return; }
-    long double tol = 1e-9L * (1 + sq);
     if (n == 0) {
         // empty aggregate: no values; variance() must still be a number (it is used by later add())
         if (std::isnan(g.nvar_) || std::isnan(g.mean_)) vh::viol("aggregate of no values has NaN state (poisons every later add), after " + line);
         return;
     }
-    long double mean = sum / n, nvar = 0, mn = v[0], mx = v[0];
-    for (long double x : v) { nvar += (x - mean) * (x - mean); mn = std::min(mn, x); mx = std::max(mx, x); }
-    auto bad = [&](long double got, long double want) { return !(std::fabs(got - want) <= tol); };
-    if (bad(g.mean(), mean)) vh::viol("aggregate mean " + g17(g.mean()) + " but values have mean " + g17(static_cast<double>(mean)) + ", after " + line);
-    long double var0 = n > 1 ? nvar / n : 0, var1 = n > 1 ? nvar / (n - 1) : 0;
-    if (bad(g.nvar_, nvar)) vh::viol("aggregate nvar_ " + g17(g.nvar_) + " but values have sum of squared deviations " + g17(static_cast<double>(nvar)) + ", after " + line);
-    if (bad(g.variance(0), var0)) vh::viol("aggregate variance(0) " + g17(g.variance(0)) + " but values have " + g17(static_cast<double>(var0)) + ", after " + line);
-    if (bad(g.variance(1), var1)) vh::viol("aggregate variance(1) " + g17(g.variance(1)) + " but values have " + g17(static_cast<double>(var1)) + ", after " + line);
-    if (static_cast<long double>(g.min()) != mn) vh::viol("aggregate min wrong after " + line);
-    if (static_cast<long double>(g.max()) != mx) vh::viol("aggregate max wrong after " + line);
+    AggRef e = agg_exact(v);
+    const long double u = 1.1102230246251565e-16L;
+    auto far = [](long double got, long double want, long double tol) { return !(fabsl(got - want) <= tol); };
+    auto bound = [](long double tol) { return " (bound " + g17(static_cast<double>(tol)) + ")"; };
+    if (far(g.mean(), e.mean, e.tol_mean)) vh::viol("aggregate mean " + g17(g.mean()) + " but values have mean " + g17(static_cast<double>(e.mean)) + bound(e.tol_mean) + ", after " + line);
+    if (far(g.nvar_, e.S, e.tol_nvar)) vh::viol("aggregate nvar_ " + g17(g.nvar_) + " but values have sum of squared deviations " + g17(static_cast<double>(e.S)) + bound(e.tol_nvar) + ", after " + line);
+    for (size_t d = 0; d <= 1; ++d) {
+        long double want = n > 1 ? e.S / (n - d) : 0, tol = n > 1 ? e.tol_nvar / (n - d) + 4 * u * want : 0;
+        if (far(g.variance(d), want, tol)) vh::viol("aggregate variance(" + std::to_string(d) + ") " + g17(g.variance(d)) + " but values have " + g17(static_cast<double>(want)) + bound(tol) + ", after " + line);
+    }
+    if (static_cast<long double>(g.min()) != e.mn) vh::viol("aggregate min wrong after " + line);
+    if (static_cast<long double>(g.max()) != e.mx) vh::viol("aggregate max wrong after " + line);
+    // the property as stated: a combined aggregate == ONE Aggregate fed with all the values (real doubles)
+    if (combined) {
+        tlx::Aggregate<T> one;
+        for (long double x : v) one.add(static_cast<T>(x));
+        if (one.count() != g.count() || one.min() != g.min() || one.max() != g.max())
+            vh::viol("combined aggregate differs from one aggregate fed with all values in count/min/max, after " + line);
+        if (far(g.mean(), one.mean(), 2 * e.tol_mean)) vh::viol("combined aggregate mean " + g17(g.mean()) + " but one aggregate fed with all values has " + g17(one.mean()) + bound(2 * e.tol_mean) + ", after " + line);
+        if (far(g.nvar_, one.nvar_, 2 * e.tol_nvar)) vh::viol("combined aggregate nvar_ " + g17(g.nvar_) + " but one aggregate fed with all values has " + g17(one.nvar_) + bound(2 * e.tol_nvar) + ", after " + line);
+    }
 }
 
 template <typename T>
@@ -654,7 +694,7 @@ static void do_agg(Bank<T>& B, const std::vector<std::string>& t, const std::str
     else if (op == "copy" && t.size() == 5 && reg(4, a)) { B.agg[r] = B.agg[a]; B.ref[r] = B.ref[a]; }
     else if (op == "get" && t.size() == 4) {}
     else { vh::answer("bad-op"); return; }
-    agg_report(B, r, line);
+    agg_report(B, r, line, op == "plus" || op == "pluseq");
 }
 
 // popcount(const void*, size_t):  pb <misalignment 0..7> <hex bytes or ->
